@@ -393,3 +393,104 @@ func TestC15BatteryValues(t *testing.T) {
 	}
 	rec.Sample(b)
 }
+
+// TestC15PluginStatuses: the status a plugin reports for a failure is a function of the failure
+// and the configuration in force - not of what the plugin instance reported earlier.
+func TestC15PluginStatuses(t *testing.T) {
+	rec := vt.NewRec(t, "C15", "plugin-statuses", "overload plugin (total QPS limit / per-handler QPS limit / connection limit): instance A is configured with limit L0, driven into rejecting, updated to limit L (new configuration or LimitConfig() edited in place) and driven into rejecting again; instance B is configured with L directly and driven into rejecting; oracle: the (code, message, cause) observed under A after the update equals the one observed under B; non-trivial always; distinct by case")
+	protos := vt.StreamProtos()
+	rapid.Check(t, func(t *rapid.T) {
+		vt.Init()
+		newLib()
+		kind := rapid.SampledFrom([]string{"total", "handler", "handler", "conn"}).Draw(t, "kind")
+		l0 := int32(rapid.IntRange(1, 6).Draw(t, "l0"))
+		l1 := int32(rapid.IntRange(1, 6).Draw(t, "l1"))
+		inplace := rapid.Bool().Draw(t, "inplace")
+		proto := rapid.SampledFrom(protos).Draw(t, "proto")
+		rec.Case(fmt.Sprintf("%s|%d|%d|%v|%s", kind, l0, l1, inplace, proto.Name), true, "kind="+kind)
+		if rec.WantSample() {
+			rec.Sample(map[string]interface{}{"limit_kind": kind, "first_limit": l0, "then_limit": l1, "edited_in_place": inplace})
+		}
+		cfg := func(l int32) overloader.LimitConfig {
+			switch kind {
+			case "total":
+				return overloader.LimitConfig{MaxTotalQPS: l, QPSInterval: time.Second}
+			case "handler":
+				return overloader.LimitConfig{QPSInterval: time.Second, MaxHandlerQPS: []overloader.HandlerLimit{{ServiceMethod: "/lib_do", MaxQPS: l}}}
+			}
+			return overloader.LimitConfig{MaxConn: l}
+		}
+		w := vt.NewWorld()
+		defer w.Close()
+		// reject drives the serving peer over its limit and returns the status of the rejection
+		reject := func(srv erpc.Peer, max int32) (vt.StatusTriple, bool) {
+			cli := w.Peer(erpc.PeerConfig{})
+			if kind == "conn" {
+				for i := int32(0); i <= max+1; i++ {
+					l := w.Connect(cli, srv, proto, nil)
+					if l.B == nil {
+						return vt.TripleOf(l.BStat), true
+					}
+				}
+				return vt.StatusTriple{}, false
+			}
+			l := w.Connect(cli, srv, proto, nil)
+			if l.A == nil || l.B == nil {
+				return vt.StatusTriple{}, false
+			}
+			defer l.A.Close()
+			for i := int32(0); i <= max+6; i++ {
+				if cmd := l.A.Call("/lib_do", &LibArg{Rid: fmt.Sprintf("r%d", i), Act: "ret"}, new(LibRes)); !cmd.StatusOK() {
+					return vt.TripleOf(cmd.Status()), true
+				}
+			}
+			return vt.StatusTriple{}, false
+		}
+		ovA := overloader.New(cfg(l0))
+		srvA := w.Peer(erpc.PeerConfig{}, ovA)
+		registerLib(srvA)
+		if _, ok := reject(srvA, l0); !ok {
+			t.Skip("instance A was not driven into rejecting under its first limit (a refill tick came in between)")
+		}
+		if inplace && kind == "handler" {
+			c := ovA.LimitConfig()
+			c.MaxHandlerQPS[0].MaxQPS = l1
+			ovA.Update(c)
+		} else if inplace {
+			c := ovA.LimitConfig()
+			if kind == "total" {
+				c.MaxTotalQPS = l1
+			} else {
+				c.MaxConn = l1
+			}
+			ovA.Update(c)
+		} else {
+			ovA.Update(cfg(l1))
+		}
+		m := l1
+		if l0 > m {
+			m = l0
+		}
+		tA, okA := reject(srvA, m)
+		ovB := overloader.New(cfg(l1))
+		srvB := w.Peer(erpc.PeerConfig{}, ovB)
+		registerLib(srvB)
+		tB, okB := reject(srvB, l1)
+		if !okA || !okB {
+			t.Skip("an instance was not driven into rejecting (a refill tick came in between)")
+		}
+		if kind == "conn" {
+			// the message names the number of live connections, which is part of the failure: compare limit part and code
+			cut := func(s string) string {
+				if i := strings.Index(s, ", now="); i >= 0 {
+					return s[:i]
+				}
+				return s
+			}
+			tA.Msg, tB.Msg, tA.Cause, tB.Cause = cut(tA.Msg), cut(tB.Msg), cut(tA.Cause), cut(tB.Cause)
+		}
+		if tA != tB {
+			t.Fatalf("C15 violated: %s limit %d: an overload plugin that was first configured with limit %d (and rejected under it) reports %+v, one configured with %d from the start reports %+v", kind, l1, l0, tA, l1, tB)
+		}
+	})
+}
